@@ -1,6 +1,7 @@
 package main
 
 import (
+	"strconv"
 	"strings"
 
 	"github.com/grindlemire/go-lucene/internal/zsimrt"
@@ -91,11 +92,92 @@ type Scenario struct {
 	MapSeed  uint64     `json:"map_seed"`           // order in which library `range <map>` loops iterate (the simulator owns it)
 	Contend  bool       `json:"contend,omitempty"`
 	Shape    string     `json:"shape,omitempty"` // workload shape this scenario was drawn with (informational)
+	Giant    bool       `json:"giant,omitempty"` // giant inputs: larger step caps apply
 
 	hot []hotQuery // generation-time only
 }
 
 type hotQuery struct{ q, field string }
+
+// giantEvery > 0: every giantEvery-th run index is a giant-input scenario.
+var giantEvery uint64
+
+// genGiant draws a scenario whose inputs are far larger than anything a corpus
+// holds: chains of hundreds of terms, lists of hundreds of values, hundreds of
+// nesting levels — past the limits (256, 512, 1024) that depth guards, scratch
+// stacks and counters tend to use — worked on by 2–3 tasks at the same time.
+func genGiant(r *zsimrt.Rand, sc *Scenario) {
+	sc.Shape = "giant-input"
+	sc.Giant = true
+	n := []int{300, 300, 600, 600, 600, 1100}[r.Intn(6)]
+	var sb strings.Builder
+	switch r.Intn(6) {
+	case 0:
+		for i := 0; i < n; i++ {
+			if i > 0 {
+				sb.WriteString(" AND ")
+			}
+			sb.WriteString("f" + itoa(i%7) + ":" + itoa(i))
+		}
+	case 1:
+		for i := 0; i < n; i++ {
+			if i > 0 {
+				sb.WriteString(" OR ")
+			}
+			sb.WriteString("f" + itoa(i%7) + ":v" + itoa(i))
+		}
+	case 2:
+		for i := 0; i < n; i++ {
+			sb.WriteString("t" + itoa(i) + " ")
+		}
+	case 3:
+		sb.WriteString("a:(")
+		for i := 0; i < 2*n; i++ {
+			if i > 0 {
+				sb.WriteString(" OR ")
+			}
+			sb.WriteString("v" + itoa(i%(n+3)))
+		}
+		sb.WriteString(")")
+	case 4:
+		d := n / 4
+		sb.WriteString(strings.Repeat("(", d) + "a:b AND c:[1 TO 5]" + strings.Repeat(")", d))
+	default:
+		d := n / 6
+		sb.WriteString(strings.Repeat("NOT ", d) + "a:b* OR " + strings.Repeat("+", 1) + "c:d")
+	}
+	q := sb.String()
+	field := fieldChoices[r.Intn(len(fieldChoices))]
+	sc.Shared = []ExprSpec{{Kind: "parse", Query: q, Field: field}}
+	nTasks := 2 + r.Intn(2)
+	sc.Late = make([]bool, nTasks)
+	kinds := []string{KParse, KParse, KToPG, KToPG, KToParam, KToParam, KValidate, KValidate, KRenderParam, KRender, KMarshal, KString}
+	total := 0
+	for t := 0; t < nTasks; t++ {
+		var ops []Op
+		for i := 0; i < 1+r.Intn(2); i++ {
+			op := Op{Kind: kinds[r.Intn(len(kinds))], Shared: -1}
+			switch op.Kind {
+			case KParse, KToPG, KToParam:
+				op.Query, op.Field = q, field
+			default:
+				op.Shared = 0
+			}
+			ops = append(ops, op)
+			total++
+		}
+		sc.Tasks = append(sc.Tasks, ops)
+	}
+	sc.Contend = true
+	sc.Sched = SchedSpec{Policy: []string{"park", "park", "uniform", "single"}[r.Intn(4)], MeanGap: 1000, Quantum: 999, PCTDepth: 1,
+		SingleA: r.Intn(nTasks), SinglePerm: r.Intn(1001), SyncQ: []int{30, 100, 300}[r.Intn(3)]}
+	sc.RefOrder = make([]int, total)
+	for i := range sc.RefOrder {
+		sc.RefOrder[i] = total - 1 - i
+	}
+}
+
+func itoa(i int) string { return strconv.Itoa(i) }
 
 func policyID(name string) int {
 	for i, n := range zsimrt.PolicyNames {
@@ -113,6 +195,10 @@ var fieldChoices = []string{"", "", "", "default", "dflt field", "x"}
 func genScenario(r *zsimrt.Rand, run, seed uint64, cold bool, c *corpus) *Scenario {
 	sc := &Scenario{Run: run, Seed: seed, Cold: cold}
 	sc.MapSeed = r.Uint64() | 1
+	if giantEvery > 0 && !cold && run%giantEvery == giantEvery-1 {
+		genGiant(r, sc)
+		return sc
+	}
 
 	// workload shape (swarm style): 0-3 every task works on ONE shared expression,
 	// 4-5 every task hammers the global entry points, 6-9 a free mix
@@ -205,6 +291,29 @@ func genScenario(r *zsimrt.Rand, run, seed uint64, cold bool, c *corpus) *Scenar
 		}
 		sc.Tasks = append(sc.Tasks, ops)
 	}
+	if cold && r.Intn(4) != 0 {
+		// first-use burst: every task starts with the SAME call on the same (rich) input,
+		// so that whatever that path initialises lazily is first reached concurrently
+		q := c.rich(r)
+		f := fieldChoices[r.Intn(len(fieldChoices))]
+		kind := []string{KToPG, KToParam, KToPG, KToParam, KParse, KRender, KRenderParam, KCRenderParam, KMarshal, KString, KValidate, KUnmarshal}[r.Intn(12)]
+		for t := range sc.Tasks {
+			if r.Intn(5) == 0 {
+				continue
+			}
+			op := Op{Kind: kind, Shared: -1}
+			switch kind {
+			case KParse, KToPG, KToParam:
+				op.Query, op.Field = q, f
+			case KUnmarshal:
+				op.Query = c.jsonDoc(r)
+			default:
+				op.Priv = &ExprSpec{Kind: "parse", Query: q, Field: f}
+				op.Fresh = true
+			}
+			sc.Tasks[t] = append([]Op{op}, sc.Tasks[t]...)
+		}
+	}
 	if lateTask >= 0 {
 		sc.Late[lateTask] = true
 		spawner := r.Intn(nTasks)
@@ -227,9 +336,9 @@ func genScenario(r *zsimrt.Rand, run, seed uint64, cold bool, c *corpus) *Scenar
 	// schedule and fault configuration
 	var pols []string
 	if cold {
-		pols = []string{"uniform", "uniform", "rr", "targeted"}
+		pols = []string{"uniform", "uniform", "rr", "targeted", "park", "park", "park"}
 	} else {
-		pols = []string{"uniform", "uniform", "uniform", "pct", "pct", "single", "single", "rr", "targeted", "targeted"}
+		pols = []string{"uniform", "uniform", "uniform", "pct", "pct", "single", "single", "rr", "targeted", "targeted", "park", "park"}
 	}
 	if zsimrt.UsesSync {
 		// the library takes locks: spend a good share of the runs preempting exactly at lock releases/acquires
